@@ -77,6 +77,7 @@ package writeaheadlog
 //@   maypanic
 //@   at loopback 1
 //@     before[each_log_file_is_listed_with_the_stat_read_from_it] !res(HasSuffix, 1) || (len(wal.logFiles) > 0 && wal.logFiles[len(wal.logFiles)-1] == res(readLogFile, 1, 0) && res(readLogFile, 1, 2) == nil)
+//@     before[only_files_with_the_log_extension_are_listed] res(HasSuffix, 1) == (len(wal.logFiles) == len(prev(wal.logFiles)) + 1) && (res(HasSuffix, 1) || len(wal.logFiles) == len(prev(wal.logFiles)))
 
 // "Restart never appends to an old file": inside this package a file is opened for writing in one place only — rotate,
 // with O_CREATE|O_EXCL|O_WRONLY (see its contract) — so neither reading a directory back nor anything else can make an
